@@ -23,8 +23,8 @@ CHECKS = {
          "For each distinct state from the BFS (depth 2 quick / 3 thorough), all (from,to) pairs over 10 relative positions incl. 0 and 2^64-1, with/without a reading OnDelete handler; rejected ranges must leave observation vector and raw datastore image identical; accepted ones must remove raw keys, pending entries and every lookup, keep outside headers, set pointers, and stay deleted across 8 continuations (restart, appends, re-append); every pair again with one more header appended right before the call and still in the write queue (slow datastore); every position of one failing datastore write during the delete is enumerated with the part-way-failure oracle and retry; a handler that rejects every height >= X (X over the first positions of the range) is a second part-way failure, run on the sequential path and, with the parallel path forced through the threshold hook, on the parallel path (several workers fail in one call): rejected heights stay readable, the error is surfaced, a retry from the reported Tail completes.",
          "Open findings F06/F07 (write-fault paths) are reported as KNOWN-FINDING; fault model = one failing write attempt (put/delete/batch/commit).", "2.2 C08"),
  "C14": ("E1-seqx", "fault_enumeration",
-         "exhaustive enumeration of handler fault positions (handler i, invocation k, error|panic) over every reachable state x accepted range, sequential and parallel deletion path, on the real store",
-         "Every accepted range in every BFS state, with 1 and 2 registered handlers that read the header through GetByHeight, no fault and every (i,k,error|panic|error wrapping datastore.ErrNotFound); oracle: per removed height each handler exactly once, header readable inside the handler, no datastore delete of its keys in the commit log before the last handler returned, failing height stays readable, error surfaced, tail-side retry re-invokes handlers and completes; plus a handler rejecting every height >= X (several parallel workers failing at different heights): Tail never moves past X, nothing >= X is removed, the retry re-invokes the handler exactly once per remaining height. The parallel path is reached by lowering the threshold through the verif hook.",
+         "exhaustive enumeration of handler fault positions (handler i, invocation k, error|panic) over every reachable state x accepted range, sequential and parallel deletion path, on the real store; plus stateless DFS over the thread schedules of concurrent OnDelete registrations (instrumented store package)",
+         "Every accepted range in every BFS state, with 1 and 2 registered handlers that read the header through GetByHeight, no fault and every (i,k,error|panic|error wrapping datastore.ErrNotFound); oracle: per removed height each handler exactly once, header readable inside the handler, no datastore delete of its keys in the commit log before the last handler returned, failing height stays readable, error surfaced, tail-side retry re-invokes handlers and completes; plus a handler rejecting every height >= X (several parallel workers failing at different heights): Tail never moves past X, nothing >= X is removed, the retry re-invokes the handler exactly once per remaining height. The parallel path is reached by lowering the threshold through the verif hook. Schedule part (engine E2): every schedule with <= 1 preemption (thorough <= 2) of three concurrent OnDelete registrations; afterwards one header is deleted and every registered handler must have been called exactly once.",
          "Parallel path runs with real goroutines (48 workers) inside the bubble: its internal interleavings are sampled by the Go scheduler, not enumerated.", "2.2 C14"),
  "C06": ("E3-crashx", "fault_enumeration",
          "exhaustive crash-point enumeration (every commit-log prefix of every transition of the explored state graph) and exhaustive placement of 1..3 consecutive failing flush writes, on the real store",
@@ -56,7 +56,7 @@ CHECKS = {
          "At most one benign fault per run; servers use a simple honest in-memory store; in the schedule part a network round trip is atomic within the requesting thread's step.", "2.4 C18"),
  "C03": ("E1-syncx", "model_checking",
          "explicit-state BFS over environment event histories (gossip deliveries, Head() calls, held getter answers, clock advances) on the real Syncer + real Store, oracle in every state; plus stateless DFS over thread schedules of the instrumented sync package with preemption bounding",
-         "Event alphabet: deliver {next, skip 2/3, duplicate, stale, forged adjacent, forged far (bifurcation), bad link, wrong chain, future-dated}, Head(), answer of the held getter call {full, prefix, error}, advance {40s, 2h}; depth 4 quick / 6 thorough over trust ranges {unlimited, 2, (1)} and batch sizes; plus a lagging-peers pass (depth 6 / 8) where a held trusted-head request is answered with a soft-failing honest or forged header while gossip runs ahead; in every state: every stored header (datastore scan + pending) is the verified chain's header, the store is one run Tail..Head, every invalid delivery returned an error, no unverified header is pending / the sync target / the origin of a range request. Schedule part (engine E2 on the sync package): all schedules with <= 1 preemption (thorough <= 2) of concurrent gossip handler threads and the sync loop (target vs duplicate vs stale; three heads in any order; thorough: forged vs honest target); only chain headers stored in one run, every accepted head synced.",
+         "Event alphabet: deliver {next, skip 2/3, duplicate, stale, forged adjacent, forged far (bifurcation), bad link, wrong chain, future-dated}, Head(), answer of the held getter call {full, prefix, error}, advance {40s, 2h}; depth 4 quick / 6 thorough over trust ranges {unlimited, 2, (1)} and batch sizes; plus a lagging-peers pass (depth 6 / 8) where a held trusted-head request is answered with a soft-failing honest or forged header while gossip runs ahead; in every state: every stored header (datastore scan + pending) is the verified chain's header, the store is one run Tail..Head, every invalid delivery returned an error, no unverified header is pending / the sync target / the origin of a range request. Schedule part (engine E2 on the sync package): all schedules with <= 1 preemption (thorough <= 2) of concurrent gossip handler threads and the sync loop (target vs duplicate vs stale; three heads in any order; two pending ranges handed to an asynchronous store while a head is appended to the last one; thorough: forged vs honest target); only chain headers stored in one run, every accepted head synced.",
          "Event granularity (bubble quiescence between events); while a delivery is parked in bifurcation no second delivery is issued (sync.Mutex blocking is invisible to synctest); zero headers are not delivered (the Subscriber never produces them).", "2.3 C03"),
  "C07": ("E1-syncx", "model_checking",
          "explicit-state BFS over event histories with an honest held getter on the real Syncer + Store; quiescent-state oracle plus a recovery probe from every quiescent state; plus stateless DFS over thread schedules of the instrumented sync package with preemption bounding",
@@ -72,11 +72,11 @@ CHECKS = {
          "Open finding F13 reported as KNOWN-FINDING.", "2.3 C16"),
  "C19": ("E1-syncx", "model_checking",
          "explicit-state BFS over histories of Head() calls, clock advances, deliveries and held trusted-head answers on the real Syncer, per-call and per-state oracle; plus stateless DFS over thread schedules of three concurrent Head() callers (instrumented sync package)",
-         "Stores {empty, fresh, stale, expired head (peers fresh / peers expired), stale head with trusted peers lagging behind gossip}; events Head(), deliver next, advance {3s, 40s, 4000s}, answers of the held trusted-head request {newer, same, one above the verified head, tip, error, soft+header} and of the initialisation request {fresh tip, old, error}; depth 5 quick / 7 thorough. Per completed Head(): no request when recent, exactly one request carrying the subjective head when stale, re-initialisation asks the trusted peers (request without trusted head) and only adopts non-expired heads; per state: at most one head request in flight (single flight), every group of overlapping callers on one stale head causes exactly one request, and results never decrease in completion order. Schedule part: all schedules with <= 1 preemption (thorough <= 2) of three concurrent Head() callers on a stale head: exactly one request carrying the subjective head, results never decrease.",
+         "Stores {empty, fresh, stale, expired head (peers fresh / peers expired), stale head with trusted peers lagging behind gossip, the same with the store write of the reported head stalled and then failed or completed (depth +2, small alphabet)}; events Head(), deliver next, advance {3s, 40s, 4000s}, answers of the held trusted-head request {newer, same, one above the verified head, tip, error, soft+header} and of the initialisation request {fresh tip, old, error}; depth 5 quick / 7 thorough. Per completed Head(): no request when recent, exactly one request carrying the subjective head when stale, re-initialisation asks the trusted peers (request without trusted head) and only adopts non-expired heads; per state: at most one head request in flight (single flight), every group of overlapping callers on one stale head causes exactly one request, and results never decrease in completion order. Schedule part: all schedules with <= 1 preemption (thorough <= 2) of three concurrent Head() callers on a stale head: exactly one request carrying the subjective head, results never decrease.",
          "Overlapping Head() callers are explored at event granularity (a second call while the first one's request is held).", "2.3 C19"),
  "C12": ("E2-schedx", "model_checking",
          "stateless DFS over thread schedules with iterative preemption bounding on the real store code (instrumented copy generated from the working tree, controlled scheduler on synctest quiescence)",
-         "Every synchronisation operation of the store package (mutex/rwmutex/once/waitgroup, atomics, channel send/recv/close/select, goroutine start) and every datastore operation is a scheduling point; all schedules with <= 1 preemption (quick; thorough <= 2, one more attempted) are enumerated for: reader vs contiguous append, reader vs gapped-then-filled append, two readers + canceller + writer, missing height below Height(), cancelled reader, reader vs the first batch and the very first header of an empty store, gapped-never-filled, (thorough) two readers vs out-of-order writers; batch sizes 1 and 64. Oracle per execution: the reader gets the appended header and never its deadline (a lost wake-up is a reader only released by virtual time), ErrNotFound / cancellation without time passing, no deadlock.",
+         "Every synchronisation operation of the store package (mutex/rwmutex/once/waitgroup, atomics, channel send/recv/close/select, goroutine start) and every datastore operation is a scheduling point; all schedules with <= 1 preemption (quick; thorough <= 2, one more attempted) are enumerated for: reader vs contiguous append, reader vs gapped-then-filled append, two readers + canceller + writer, missing height below Height(), cancelled reader, reader vs the first batch and the very first header of an empty store, a batch with a gap around the waited height, a descending batch above a gap, gapped-never-filled, (thorough) two readers vs out-of-order writers; batch sizes 1 and 64. Oracle per execution: the reader gets the appended header and never its deadline (a lost wake-up is a reader only released by virtual time), ErrNotFound / cancellation without time passing, no deadlock.",
          "Unsynchronised accesses between two scheduling points are not interleaved; weak memory is not modelled; Go's own choice among select clauses becoming ready simultaneously while a thread is blocked is not owned.", "2.2 C12"),
  "C17": ("E2-schedx", "model_checking",
          "stateless DFS over thread schedules with iterative preemption bounding on the real store code (instrumented copy), per-execution oracle and comparison with the sequential result",
@@ -131,7 +131,7 @@ def main():
             {"name": "E1-inputs", "path": "harness/pure", "serves_properties": ["C01", "C02"], "kind_free_text": "exhaustive input-product enumeration on the real functions vs reference oracle"},
             {"name": "E1-netx", "path": "harness/p2px", "serves_properties": ["C05", "C09", "C10", "C11", "C13", "C18"], "kind_free_text": "real Exchange/ExchangeServer/Subscriber over libp2p mocknet inside a synctest bubble; scripted peers keyed by (origin, attempt), release gates for arrival order, deadline-honouring stream decorator"},
             {"name": "E1-syncx", "path": "harness/syncx", "serves_properties": ["C03", "C07", "C15", "C16", "C19"], "kind_free_text": "real sync.Syncer + real store.Store in a synctest bubble with a scripted contract-abiding getter (calls held until answered), capturing subscriber and virtual clock; BFS over event histories"},
-            {"name": "E2-schedx", "path": "harness/vrtsrc + harness/cmd/instrument + harness/schedx", "serves_properties": ["C12", "C17", "C03", "C07", "C19", "C05", "C18"], "kind_free_text": "(harness/schedx on store, harness/schedsync on sync, harness/schedp2p on p2p) controlled scheduler (one runnable thread at a time, decisions at synctest quiescence), source-to-source instrumentation of the repository package through a build overlay, stateless DFS with preemption bounding sharded over single-threaded worker processes"},
+            {"name": "E2-schedx", "path": "harness/vrtsrc + harness/cmd/instrument + harness/schedx", "serves_properties": ["C12", "C17", "C14", "C03", "C07", "C19", "C05", "C18"], "kind_free_text": "(harness/schedx on store, harness/schedsync on sync, harness/schedp2p on p2p) controlled scheduler (one runnable thread at a time, decisions at synctest quiescence), source-to-source instrumentation of the repository package through a build overlay, stateless DFS with preemption bounding sharded over single-threaded worker processes"},
             {"name": "E1-seqx", "path": "harness/vk/bfs.go + harness/storex", "serves_properties": ["C04", "C06", "C08", "C14"], "kind_free_text": "explicit-state BFS over operation histories on the real store (fresh instance + replay per successor, canonical state key), LogDS commit-log/fault-injecting datastore"},
         ],
         "checks": checks,
